@@ -21,7 +21,7 @@ PID = "C09"
 RULE = ("part A: random DAG (2-5 functions, shared parameters, defaults, bound values, tuple outputs) x subset of cached "
         "functions x cache type {simple, lru, hybrid, disk} with randomised small capacities (max_size 1-3, LRU front 1-2, "
         "shared on/off) x history of <=8 steps drawn from pipeline(output, **cut) over a 2-value domain (root-only cuts, "
-        "cuts supplying intermediates, mixed), run(full_output=True), repeat-previous-call, update_defaults, "
+        "cuts supplying intermediates, mixed), run(full_output=True), repeat-previous-call (every other one with the keyword arguments in the opposite order), update_defaults, "
         "update_bound (values incl. floats that differ in the tenth digit), function-level update_renames that swap two root "
         "arguments, replace, sequential map, cache files wiped by another user of the directory; 30% directed scenarios (call, "
         "update, repeat, update, repeat); Pipeline(lazy=True) for a quarter of the non-shared simple/lru cases; every step is "
